@@ -298,31 +298,45 @@ Variable w : dtype.
 Hypothesis Hw : fmt_of w = {| f_prec := prec; f_emax := emax |}.
 Hypothesis Hwf : is_int w = false.
 
-(* rint, clip with the target's bounds converted to the work float type, and
-   the final cast, on a finite work value: saturation of the rounded value.
-   hi' is the value the upper bound takes in the work type. *)
-Lemma round_clip_cast : forall o x hi',
-  is_uint o = true ->
+(* rint, clip with the target's bounds converted to the work float type, the
+   final cast and the saturate_top patch, on a finite work value x = cast w v:
+   saturation of the rounded value.  hi' is the value the upper bound takes in
+   the work type (2^64 for uint64 in float64, the bound itself otherwise). *)
+Lemma convert_float_core : forall i o v x hi',
+  is_uint o = true -> round_flag i o = true -> clip_flag i o = true ->
+  work_dtype i o = w -> clip_lo i o = imin o -> clip_hi i o = imax o ->
+  cast w v = NF x ->
   valid_binary prec emax x = true -> is_finite x = true ->
   Val prec emax (of_Z (fmt_of w) (imax o)) (IZR hi') -> imax o <= hi' ->
-  (Z.min (Z.max (rhe_Q (SF2Q x)) 0) hi' <= imax o) ->
-  cast o (clip_num w (imin o) (imax o) (rint_num w (NF x))) = NI (clamp o (rhe_Q (SF2Q x))).
+  (saturate_top i o = true -> hi' <= imax o + 1) ->
+  (saturate_top i o = false -> Z.min (Z.max (rhe_Q (SF2Q x)) 0) hi' <= imax o) ->
+  convert_scalar i o v = NI (clamp o (rhe_Q (SF2Q x))).
 Proof.
-  intros o x hi' Ho Hv Hf Hhi Hge Hle.
+  intros i o v x hi' Ho Hrf Hcf Hwd Hlo' Hhi' Hcast Hv Hf Hhi Hge Hsat1 Hsat0.
   assert (Hio : is_int o = true) by (destruct o; try discriminate Ho; reflexivity).
   assert (Hmin : imin o = 0) by (destruct o; try discriminate Ho; reflexivity).
-  cbn [rint_num clip_num]. rewrite Hmin.
+  unfold convert_scalar, work_value, at_top, fhi_of. rewrite Hrf, Hcf, Hwd, Hlo', Hhi', Hcast.
+  cbn [orb rint_num clip_num]. rewrite Hmin.
   pose proof (rint_Val prec emax Hprec Hmax Hemin0 x Hv Hf) as Hy.
   rewrite <- Hw in Hy.
   assert (Hlo : Val prec emax (of_Z (fmt_of w) 0) (IZR 0)).
   { rewrite Hw. apply of_Z_Rep; try assumption. cbn. apply Z.pow_pos_nonneg; lia. }
   destruct (clip_Val prec emax _ _ _ _ _ _ Hy Hlo Hhi) as [y' [Ey Hy']].
-  rewrite Ey. cbn [cast]. rewrite Hio. f_equal.
+  rewrite Ey.
   pose proof (Val_trunc prec emax _ _ Hy') as Ht.
   set (n := rhe_Q (SF2Q x)) in *.
-  assert (0 <= imax o) by (destruct o; try discriminate Ho; dt_unfold; lia).
-  rewrite (c_cast_in_range o y' _ Ho Ht) by lia.
-  unfold clamp. rewrite Hmin. lia.
+  assert (H0 : 0 <= imax o) by (destruct o; try discriminate Ho; dt_unfold; lia).
+  assert (Hnan : is_nan y' = false).
+  { destruct Hy' as (_ & Hfy & _). destruct y'; try discriminate Hfy; reflexivity. }
+  rewrite Hnan. cbn [negb andb]. unfold fltb. rewrite (fltb_Val prec emax y' _ _ _ Hy' Hhi).
+  destruct (saturate_top i o) eqn:Es; cbn [andb].
+  - specialize (Hsat1 eq_refl).
+    destruct (Rlt_bool_spec (IZR (Z.min (Z.max n 0) hi')) (IZR hi')) as [Hl|Hl]; cbn [negb].
+    + apply lt_IZR in Hl. cbn [cast]. rewrite Hio. f_equal.
+      rewrite (c_cast_in_range o y' _ Ho Ht) by lia. unfold clamp. rewrite Hmin. lia.
+    + apply le_IZR in Hl. f_equal. unfold clamp. rewrite Hmin. lia.
+  - specialize (Hsat0 eq_refl). cbn [cast]. rewrite Hio. f_equal.
+    rewrite (c_cast_in_range o y' _ Ho Ht) by lia. unfold clamp. rewrite Hmin. lia.
 Qed.
 
 End Core.
@@ -403,78 +417,77 @@ Proof.
   rewrite SF2R_SF2Q_int by lia. f_equal.
 Qed.
 
-(* C11 (2): float -> unsigned integer is round-half-even then saturation,
-   for every finite input outside the uint64 top region. *)
-Theorem float_to_int_nearest_on_guard : forall i o x,
+Ltac side_false := let H := fresh in intro H; vm_compute in H; discriminate H.
+
+(* C11 (2): float -> unsigned integer is round-half-even then saturation, for
+   EVERY finite float32 / float64 and every unsigned target, uint64 included
+   (values at and above 2^64 saturate to 2^64-1 through the saturate_top patch). *)
+Theorem float_to_int_nearest : forall i o x,
   is_int i = false -> is_uint o = true ->
   valid_binary (f_prec (fmt_of i)) (f_emax (fmt_of i)) x = true -> is_finite x = true ->
-  uint64_top_guard i o (NF x) = true ->
   convert_scalar i o (NF x) = nearest_sat o (SF2Q x).
 Proof.
-  intros i o x Hi Ho Hv Hf Hg.
+  intros i o x Hi Ho Hv Hf.
   assert (Hio : is_int o = true) by (destruct o; try discriminate Ho; reflexivity).
   unfold nearest_sat. rewrite Hio.
-  unfold convert_scalar, work_value, round_flag, clip_flag. rewrite Hi, Hio.
-  assert (Hcc : can_cast_safe i o = false)
-    by (destruct i; try discriminate Hi; destruct o; try discriminate Ho; reflexivity).
-  rewrite Hcc. cbn [negb andb orb].
-  assert (Hwf : is_int (promote i o) = false)
-    by (destruct i; try discriminate Hi; destruct o; try discriminate Ho; reflexivity).
-  cbn [cast]. rewrite Hwf.
-  (* the guard, as a strict inequality on the exact value *)
-  assert (Hlt : o = U64 -> (SF2Q x < inject_Z two64z)%Q).
-  { intros ->. unfold uint64_top_guard in Hg. rewrite Hi in Hg. cbn [negb dtype_eqb andb num2Q] in Hg.
-    apply negb_true_iff in Hg. apply Qnot_le_lt. intro Hle. apply Qle_bool_iff in Hle. congruence. }
   destruct i; try discriminate Hi; destruct o; try discriminate Ho;
-    cbn [promote fmt_of f_prec f_emax] in *.
+    cbn [fmt_of f_prec f_emax] in *.
   (* float32 -> uint8 / uint16: work type float32 *)
   1,2: pose proof (fconv_Val 24 128 24 128 _ _ _ ltac:(lia) ltac:(lia) ltac:(lia) x Hv Hf) as (Hv0 & Hf0 & Hr0);
        rewrite <- (rhe_Q_Qeq _ _ (SF2Q_eq_of_R x _ Hr0));
-       match goal with |- cast ?o _ = _ =>
-       apply (round_clip_cast 24 128 _ _ ltac:(vm_compute; discriminate) ltac:(lia) F32 eq_refl) with (hi' := imax o);
-       [ reflexivity | exact Hv0 | exact Hf0
-       | apply (hi_bound_exact _ _ _ _); [vm_compute; discriminate | vm_compute; reflexivity] | lia | lia ] end.
+       match goal with |- convert_scalar _ ?o _ = _ =>
+       apply (convert_float_core 24 128 _ _ ltac:(vm_compute; discriminate) ltac:(lia) F32 eq_refl)
+         with (hi' := imax o);
+       [ reflexivity | reflexivity | reflexivity | reflexivity | reflexivity | reflexivity | reflexivity
+       | exact Hv0 | exact Hf0
+       | apply (hi_bound_exact _ _ _ _); [vm_compute; discriminate | vm_compute; reflexivity]
+       | lia | side_false | intros _; lia ] end.
   (* float32 -> uint32: work type float64 *)
   1: pose proof (fconv_Val 24 128 53 1024 _ _ _ ltac:(lia) ltac:(vm_compute; discriminate) ltac:(lia) x Hv Hf) as (Hv0 & Hf0 & Hr0);
      rewrite <- (rhe_Q_Qeq _ _ (SF2Q_eq_of_R x _ Hr0));
-     match goal with |- cast ?o _ = _ =>
-     apply (round_clip_cast 53 1024 _ _ ltac:(vm_compute; discriminate) ltac:(lia) F64 eq_refl) with (hi' := imax o);
-     [ reflexivity | exact Hv0 | exact Hf0
-     | apply (hi_bound_exact _ _ _ _); [vm_compute; discriminate | vm_compute; reflexivity] | lia | lia ] end.
-  (* float32 -> uint64 *)
+     match goal with |- convert_scalar _ ?o _ = _ =>
+     apply (convert_float_core 53 1024 _ _ ltac:(vm_compute; discriminate) ltac:(lia) F64 eq_refl)
+       with (hi' := imax o);
+     [ reflexivity | reflexivity | reflexivity | reflexivity | reflexivity | reflexivity | reflexivity
+     | exact Hv0 | exact Hf0
+     | apply (hi_bound_exact _ _ _ _); [vm_compute; discriminate | vm_compute; reflexivity]
+     | lia | side_false | intros _; lia ] end.
+  (* float32 -> uint64: saturate_top *)
   1: pose proof (fconv_Val 24 128 53 1024 _ _ _ ltac:(lia) ltac:(vm_compute; discriminate) ltac:(lia) x Hv Hf) as (Hv0 & Hf0 & Hr0);
-     pose proof (SF2Q_eq_of_R x _ Hr0) as Hq;
-     rewrite <- (rhe_Q_Qeq _ _ Hq);
-     apply (round_clip_cast 53 1024 _ _ ltac:(vm_compute; discriminate) ltac:(lia) F64 eq_refl) with (hi' := two64z);
-     [ reflexivity | exact Hv0 | exact Hf0 | exact hi_bound_u64 | vm_compute; discriminate
-     | match goal with |- Z.min (Z.max ?n 0) _ <= _ => assert (Hb : n < two64z)
-         by (apply rhe_below_two64; [exact Hv0 | exact Hf0 | rewrite Hq; apply Hlt; reflexivity]) end;
-       unfold two64z in *; dt_unfold; lia ].
+     rewrite <- (rhe_Q_Qeq _ _ (SF2Q_eq_of_R x _ Hr0));
+     apply (convert_float_core 53 1024 _ _ ltac:(vm_compute; discriminate) ltac:(lia) F64 eq_refl)
+       with (hi' := two64z);
+     [ reflexivity | reflexivity | reflexivity | reflexivity | reflexivity | reflexivity | reflexivity
+     | exact Hv0 | exact Hf0 | exact hi_bound_u64
+     | vm_compute; discriminate | intros _; vm_compute; discriminate | side_false ].
   (* float64 -> uint8 / uint16 / uint32 *)
   1,2,3: pose proof (fconv_Val 53 1024 53 1024 _ _ _ ltac:(lia) ltac:(lia) ltac:(lia) x Hv Hf) as (Hv0 & Hf0 & Hr0);
      rewrite <- (rhe_Q_Qeq _ _ (SF2Q_eq_of_R x _ Hr0));
-     match goal with |- cast ?o _ = _ =>
-     apply (round_clip_cast 53 1024 _ _ ltac:(vm_compute; discriminate) ltac:(lia) F64 eq_refl) with (hi' := imax o);
-     [ reflexivity | exact Hv0 | exact Hf0
-     | apply (hi_bound_exact _ _ _ _); [vm_compute; discriminate | vm_compute; reflexivity] | lia | lia ] end.
-  (* float64 -> uint64 *)
+     match goal with |- convert_scalar _ ?o _ = _ =>
+     apply (convert_float_core 53 1024 _ _ ltac:(vm_compute; discriminate) ltac:(lia) F64 eq_refl)
+       with (hi' := imax o);
+     [ reflexivity | reflexivity | reflexivity | reflexivity | reflexivity | reflexivity | reflexivity
+     | exact Hv0 | exact Hf0
+     | apply (hi_bound_exact _ _ _ _); [vm_compute; discriminate | vm_compute; reflexivity]
+     | lia | side_false | intros _; lia ] end.
+  (* float64 -> uint64: saturate_top *)
   pose proof (fconv_Val 53 1024 53 1024 _ _ _ ltac:(lia) ltac:(lia) ltac:(lia) x Hv Hf) as (Hv0 & Hf0 & Hr0).
-  pose proof (SF2Q_eq_of_R x _ Hr0) as Hq.
-  rewrite <- (rhe_Q_Qeq _ _ Hq).
-  apply (round_clip_cast 53 1024 _ _ ltac:(vm_compute; discriminate) ltac:(lia) F64 eq_refl) with (hi' := two64z);
-     [ reflexivity | exact Hv0 | exact Hf0 | exact hi_bound_u64 | vm_compute; discriminate | ].
-  match goal with |- Z.min (Z.max ?n 0) _ <= _ => assert (Hb : n < two64z)
-    by (apply rhe_below_two64; [exact Hv0 | exact Hf0 | rewrite Hq; apply Hlt; reflexivity]) end.
-  unfold two64z in *; dt_unfold; lia.
+  rewrite <- (rhe_Q_Qeq _ _ (SF2Q_eq_of_R x _ Hr0)).
+  apply (convert_float_core 53 1024 _ _ ltac:(vm_compute; discriminate) ltac:(lia) F64 eq_refl)
+    with (hi' := two64z);
+     [ reflexivity | reflexivity | reflexivity | reflexivity | reflexivity | reflexivity | reflexivity
+     | exact Hv0 | exact Hf0 | exact hi_bound_u64
+     | vm_compute; discriminate | intros _; vm_compute; discriminate | side_false ].
 Qed.
 
-(* non-vacuity: 2.5 -> 2, 255.5 -> 255 (saturated), 2^64 - 2048 -> itself *)
+(* non-vacuity: 2.5 -> 2, 2^64 - 2048 -> itself, 2^64 and a huge finite float -> 2^64 - 1 *)
 Example float_to_int_example :
   let x := of_bits b64 4612811918334230528 in      (* 2.5 *)
   is_int F64 = false /\ is_uint U8 = true /\ valid_binary 53 1024 x = true /\ is_finite x = true /\
-  uint64_top_guard F64 U8 (NF x) = true /\ convert_scalar F64 U8 (NF x) = NI 2 /\
-  uint64_top_guard F64 U64 (NF (of_bits b64 4895412794951729151)) = true /\
-  convert_scalar F64 U64 (NF (of_bits b64 4895412794951729151)) = NI (2 ^ 64 - 2048).
+  convert_scalar F64 U8 (NF x) = NI 2 /\
+  convert_scalar F64 U64 (NF (of_bits b64 4895412794951729151)) = NI (2 ^ 64 - 2048) /\
+  convert_scalar F64 U64 (NF (of_bits b64 4895412794951729152)) = NI (2 ^ 64 - 1) /\
+  convert_scalar F64 U64 (NF (of_bits b64 9132645911191595000)) = NI (2 ^ 64 - 1).
 Proof. repeat split; vm_compute; reflexivity. Qed.
 
 Lemma rhe_Q_ge : forall z q, (inject_Z z <= q)%Q -> z <= rhe_Q q.
@@ -483,44 +496,6 @@ Proof.
   unfold rhe_Q. cbn [Qnum Qden].
   assert (z <= n / Zpos d) by (apply Z.div_le_lower_bound; lia).
   destruct (2 * (n mod Zpos d) ?= Zpos d); try lia. destruct (Z.even (n / Zpos d)); lia.
-Qed.
-
-(* the failing region is exactly the guard's complement: every finite float at
-   or above 2^64 is converted to 0, where the specification demands 2^64-1 *)
-Theorem uint64_top_everywhere : forall i x,
-  is_int i = false ->
-  valid_binary (f_prec (fmt_of i)) (f_emax (fmt_of i)) x = true -> is_finite x = true ->
-  uint64_top_guard i U64 (NF x) = false ->
-  convert_scalar i U64 (NF x) = NI 0 /\ nearest_sat U64 (SF2Q x) = NI (2 ^ 64 - 1).
-Proof.
-  intros i x Hi Hv Hf Hg.
-  assert (Hge : (inject_Z two64z <= SF2Q x)%Q).
-  { unfold uint64_top_guard in Hg. rewrite Hi in Hg. cbn [negb dtype_eqb andb num2Q] in Hg.
-    apply negb_false_iff in Hg. apply Qle_bool_iff. exact Hg. }
-  split.
-  2:{ unfold nearest_sat. cbn [is_int]. f_equal. pose proof (rhe_Q_ge _ _ Hge) as H.
-      unfold clamp, two64z in *. dt_unfold. lia. }
-  unfold convert_scalar, work_value, round_flag, clip_flag. rewrite Hi. cbn [is_int negb andb orb].
-  assert (Hcc : can_cast_safe i U64 = false) by (destruct i; try discriminate Hi; reflexivity).
-  assert (Hw : promote i U64 = F64) by (destruct i; try discriminate Hi; reflexivity).
-  rewrite Hcc, Hw. cbn [negb cast is_int rint_num clip_num fmt_of].
-  assert (Hy0 : Val 53 1024 (fconv b64 x) (SF2R radix2 x)).
-  { destruct i; try discriminate Hi; cbn [fmt_of f_prec f_emax] in Hv.
-    - apply (fconv_Val 24 128 53 1024 _ _ _ ltac:(lia) ltac:(vm_compute; discriminate) ltac:(lia) x Hv Hf).
-    - apply (fconv_Val 53 1024 53 1024 _ _ _ ltac:(lia) ltac:(lia) ltac:(lia) x Hv Hf). }
-  destruct Hy0 as (Hv0 & Hf0 & Hr0).
-  pose proof (SF2Q_eq_of_R x _ Hr0) as Hq.
-  pose proof (rint_Val 53 1024 _ _ ltac:(vm_compute; discriminate) _ Hv0 Hf0) as Hy.
-  assert (Hlo : Val 53 1024 (of_Z b64 (imin U64)) (IZR 0)).
-  { apply (hi_bound_exact 53 1024 _ _). vm_compute; discriminate. vm_compute; reflexivity. }
-  destruct (clip_Val 53 1024 _ _ _ _ _ _ Hy Hlo hi_bound_u64) as [y' [Ey Hy']].
-  change {| f_prec := 53; f_emax := 1024 |} with b64 in *.
-  rewrite Ey. cbn [cast is_int]. f_equal.
-  assert (Hn : two64z <= rhe_Q (SF2Q (fconv b64 x))) by (apply rhe_Q_ge; rewrite Hq; exact Hge).
-  replace (Z.min (Z.max (rhe_Q (SF2Q (fconv b64 x))) 0) two64z) with two64z in Hy'
-    by (unfold two64z in *; lia).
-  pose proof (Val_trunc 53 1024 _ _ Hy') as Ht.
-  unfold c_cast. rewrite Ht. vm_compute. reflexivity.
 Qed.
 
 (* C11 (3): float64 -> float32 is Flocq's rounding to nearest, ties to even,
